@@ -15,6 +15,8 @@ ASSUMPTIONS = [
 
 
 MUTANTS = [
+    ('pyworkers/persistent.py', "                yield self.next_result()\n                cnt += 1\n", "                value = self.next_result()\n                if value is None:\n                    break\n                yield value\n                cnt += 1\n", 'results_iter stops at a result that is None'),
+    ('pyworkers/persistent.py', "        if not flag:\n            raise queue.Empty\n        return value", "        if not flag or not value:\n            raise queue.Empty\n        return value", 'next_result treats a falsy result as the end of the stream'),
     ('pyworkers/persistent_thread.py', "            args = list(copy.deepcopy(self._args))\n", "            args = list(self._args)\n            args = self._args\n", 'thread: defaults no longer copied (calls see what earlier calls left)'),
     ('pyworkers/persistent_process.py', "            args[0:len(extra_args)] = extra_args\n", "            args[0:1] = extra_args\n", 'process: only the first default is replaced'),
     ('pyworkers/persistent_remote.py', "            kwargs.update(extra_kwargs)\n", "", 'remote: enqueued keyword arguments ignored'),
@@ -35,7 +37,157 @@ def build(ex):
         lemmas.append((persistent.do_work_contract(ex, 'thread', f'L1tp-{ak}', 'Pipe', ak), None))
         lemmas.append((persistent.do_work_contract(ex, 'process', f'L1p-{ak}', 'Pipe', ak), None))
         lemmas.append((persistent.do_work_contract(ex, 'remote', f'L1r-{ak}', 'Pipe', ak), None))
+    lemmas += parent_side(ex)
     return lemmas
+
+
+def parent_side(ex):
+    """L4: the consumer side - next_result / results_iter hand out the values of the result messages in order, one per message, whatever the value
+    (None and falsy values included); the stream ends at the end marker"""
+    from pyvc.smt import Val, ValList, SeqVal
+    from pyvc.contracts import Contract, Loop
+    from pyvc.core import PyRaise
+    repo = ex.repo
+    PWK = 'pyworkers.persistent.PersistentWorker'
+    PTW = 'pyworkers.persistent_thread.PersistentThreadWorker'
+    out = []
+
+    def four(x):
+        l0 = Val.vitems(x)
+        l1 = ValList.vl_tl(l0)
+        l2 = ValList.vl_tl(l1)
+        l3 = ValList.vl_tl(l2)
+        return z3.And(Val.is_v_tup(x), ValList.is_vl_cons(l0), ValList.is_vl_cons(l1), Val.is_v_bool(ValList.vl_hd(l1)), ValList.is_vl_cons(l2),
+                      ValList.is_vl_cons(l3), ValList.is_vl_nil(ValList.vl_tl(l3)))
+
+    def flag(x):
+        return Val.vb(ValList.vl_hd(ValList.vl_tl(Val.vitems(x))))
+
+    def value(x):
+        return ValList.vl_hd(ValList.vl_tl(ValList.vl_tl(Val.vitems(x))))
+
+    def consumer(ex_, env):
+        I = ex_.interp
+        rp, rends = common.make_pipe(ex_, 'results', 'LocalPipe')
+        ap, aends = common.make_pipe(ex_, 'args', 'LocalPipe')
+        child = VAbs('Proc', Val.v_str(z3.IntVal(smt.str_code('<child thread>'))))
+        from . import workers as W
+        if 'Proc' not in ex_.abs_classes:
+            ex_.abs_classes['Proc'] = W.proc_class()
+        ex_.abs_classes['Proc'].set(ex_, child, 'alive', ex_.fresh('child_alive', smt.Bool))
+        cur_tid = I.sym('cur_tid')
+        attrs = {'_results_pipe': rp, '_args_pipe': ap, '_started': VBool(True), '_dead': I.sym('dead0', 'bool'), '_child': child, '_tid': I.sym('child_tid'),
+                 '_closed': I.sym('closed0', 'bool')}
+        env['self'] = ex_.alloc(HObj(repo.cls(PTW), attrs))
+        q = rends['q']
+        env['resq'] = q
+        ac = ex_.abs_classes['Queue']
+        inq = ac.get(ex_, q, 'inq')
+        ipos0 = ex_.fresh('ipos0', smt.Int)
+        ac.set(ex_, q, 'ipos', ipos0)
+        ex_.assume(z3.And(ipos0 >= 0, ipos0 <= z3.Length(inq)))
+        env['inq'] = VSeq(inq)
+        env['ipos0'] = VInt(ipos0)
+        env['k0'] = VInt(ex_.fresh('k0', smt.Int))
+        ex_.ghost['chan_elem_inv'] = {'results.q': lambda ex2, x, ipos: four(x)}
+        ex_.ghost['__call_hooks__'] = {repo.lookup_method(repo.cls(PTW), 'is_child')[0].qualname: lambda I2, fi, a, k, n, s: VBool(False)}
+
+    # ---- next_result
+    def nr_ok(c):
+        ex_ = c.ex
+        q = c.env['resq']
+        inq = c.env['inq'].e
+        p0 = c.env['ipos0'].e
+        p1 = ex_.abs_classes['Queue'].get(ex_, q, 'ipos')
+        return z3.And(p0 < z3.Length(inq), p1 == p0 + 1, flag(inq[p0]), lower(c.env['result'], ex_) == value(inq[p0]))
+    nr_ok.__doc__ = 'next_result consumes exactly one message, it is a result message (flag True), and its value is returned as it is - None and falsy values included'
+
+    def nr_empty(c):
+        ex_ = c.ex
+        q = c.env['resq']
+        inq = c.env['inq'].e
+        p0 = c.env['ipos0'].e
+        p1 = ex_.abs_classes['Queue'].get(ex_, q, 'ipos')
+        return z3.Or(z3.And(p1 == p0 + 1, p0 < z3.Length(inq), z3.Not(flag(inq[p0]))), z3.And(p1 == p0))
+    nr_empty.__doc__ = 'queue.Empty exactly for the end marker (consumed) or when nothing can be read (dead worker, nothing delivered)'
+    for bt in (('blocking', VBool(True)), ('non-blocking', VBool(False))):
+        def su(ex_, env, b=bt[1]):
+            consumer(ex_, env)
+            env['block'] = b
+            env['timeout'] = NONE
+        out.append((Contract(PWK + '.next_result', lid='L4-next', name='C05.L4-next next_result hands out the value of the next result message, whatever it is',
+                             params={'self': ('const', None), 'block': ('const', None), 'timeout': ('const', None)}, self_class=PTW, setup=su,
+                             ensures=[nr_ok], raises={'queue.Empty': nr_empty}, raises_only=['queue.Empty'], options={'recv_closed_check': False}), (bt[0], lambda ex_, env: None)))
+
+    # ---- results_iter
+    def ri_setup(maxi):
+        def su(ex_, env):
+            consumer(ex_, env)
+            if maxi:
+                m = ex_.fresh('maxitems', smt.Int)
+                ex_.assume(m >= 0)
+                env['maxitems'] = VInt(m)
+            else:
+                env['maxitems'] = NONE
+            q = env['resq']
+
+            def next_result(I2, fi, a, k, n, s):
+                # by its contract L4-next
+                ac = ex_.abs_classes['Queue']
+                inq, p = ac.get(ex_, q, 'inq'), ac.get(ex_, q, 'ipos')
+                if not ex_.branch(p < z3.Length(inq), 'next_result:message'):
+                    raise PyRaise(VExc('queue.Empty', []))
+                ex_.assume(four(inq[p]))
+                ac.set(ex_, q, 'ipos', p + 1)
+                if not ex_.branch(flag(inq[p]), 'next_result:flag'):
+                    raise PyRaise(VExc('queue.Empty', []))
+                return VSym(value(inq[p]))
+            hooks = dict(ex_.ghost['__call_hooks__'])
+            hooks[PWK + '.next_result'] = next_result
+            ex_.ghost['__call_hooks__'] = hooks
+        return su
+
+    def yielded(c):
+        return c.ex.heap[c.env['__yielded__'].addr].seq
+
+    def prefix_inv(c):
+        ex_ = c.ex
+        q = c.env['resq']
+        inq, p0 = c.env['inq'].e, c.env['ipos0'].e
+        p = ex_.abs_classes['Queue'].get(ex_, q, 'ipos')
+        y = yielded(c)
+        k0 = c.env['k0'].e
+        cnt = c.env['cnt'].e
+        mi = c.env['maxitems']
+        bound = z3.BoolVal(True) if mi is NONE else cnt <= mi.e
+        return z3.And(z3.Length(y) == cnt, p == p0 + cnt, cnt >= 0, p <= z3.Length(inq), bound,
+                      z3.Implies(z3.And(k0 >= 0, k0 < cnt), z3.And(flag(inq[p0 + k0]), y[k0] == value(inq[p0 + k0]))))
+    prefix_inv.__doc__ = 'what has been yielded so far is exactly the values of the messages consumed so far, in order (position k0 arbitrary), all of them result messages'
+
+    def iter_post(c):
+        ex_ = c.ex
+        q = c.env['resq']
+        inq, p0 = c.env['inq'].e, c.env['ipos0'].e
+        p = ex_.abs_classes['Queue'].get(ex_, q, 'ipos')
+        r = c.env['result']
+        y = ex_.heap[r.addr].seq
+        n = z3.Length(y)
+        k0 = c.env['k0'].e
+        mi = c.env['maxitems']
+        each = z3.Implies(z3.And(k0 >= 0, k0 < n), z3.And(flag(inq[p0 + k0]), y[k0] == value(inq[p0 + k0])))
+        stopped_by_marker = z3.And(p == p0 + n + 1, z3.Not(flag(inq[p0 + n])))
+        nothing_more = z3.And(p == p0 + n, p == z3.Length(inq))
+        full = z3.BoolVal(False) if mi is NONE else z3.And(n == mi.e, p == p0 + n)
+        return z3.And(each, z3.Or(stopped_by_marker, nothing_more, full))
+    iter_post.__doc__ = ('results_iter yields the value of every result message from the current position on, in order, whatever the values are; it stops only at the '
+                         'end marker, when nothing more can be read, or after maxitems values')
+    for mi in (False, True):
+        out.append((Contract(PWK + '.results_iter', lid='L4-iter', name='C05.L4-iter results_iter yields exactly the delivered results in order and stops only at the end of the stream',
+                             params={'self': ('const', None), 'maxitems': ('const', None)}, self_class=PTW, setup=lambda ex_, env: None,
+                             ensures=[iter_post], raises={}, raises_only=[],
+                             loops={0: Loop(invariant=[prefix_inv], modifies=['__yielded__', 'abs:Queue.ipos'], locals={'cnt': 'int'})},
+                             options={'symbolic_yield': True, 'recv_closed_check': False}), ('maxitems given' if mi else 'maxitems=None', ri_setup(mi))))
+    return out
 
 
 # ------------------------------------------------------------------------------ replay on the real code
